@@ -31,9 +31,23 @@ pub struct Case {
     pub bin: bool,
     /// last unit via `completed` / `finish` (true) or `complete_one`/`finish_one` + no_more_results (false)
     pub direct_terminal: bool,
+    /// the statement fails after the units were reported: every unit is announced with
+    /// complete_one / finish_one and the chain ends in `error(kind, msg)`; all the counts reported
+    /// before it still have to arrive, followed by the ERR
+    #[serde(default)]
+    pub error_end: Option<(u16, Vec<u8>)>,
 }
 
 fn program(case: &Case) -> Program {
+    if let Some((kind, msg)) = &case.error_end {
+        let mut inner = case.clone();
+        inner.error_end = None;
+        inner.direct_terminal = false;
+        let mut p = program(&inner);
+        p.steps.pop();
+        p.steps.push(Step::Error { kind: *kind, msg: msg.clone() });
+        return p;
+    }
     let n = case.units.len();
     let mut steps = Vec::new();
     for (i, u) in case.units.iter().enumerate() {
@@ -114,7 +128,8 @@ impl Prop for C14 {
                 }
             })
             .collect();
-        Case { units, bin: g.coin(), direct_terminal: g.coin() }
+        let error_end = if g.chance(1, 6) { Some((crate::gens::gen_error_kind(g), crate::gens::gen_error_msg(g))) } else { None };
+        Case { units, bin: g.coin(), direct_terminal: g.coin(), error_end }
     }
     fn fixed(&self, tier: Tier) -> Vec<Case> {
         let mut v = Vec::new();
@@ -124,17 +139,18 @@ impl Prop for C14 {
                     if tier == Tier::Quick && bin && (r % 3 == 1) {
                         continue;
                     }
-                    v.push(Case { units: vec![Unit14::Count { rows: r, id: i }], bin, direct_terminal: (r ^ i) & 1 == 0 });
+                    v.push(Case { units: vec![Unit14::Count { rows: r, id: i }], bin, direct_terminal: (r ^ i) & 1 == 0, error_end: None });
                 }
             }
         }
         for &k in &[0usize, 1, 2, 250, 251, 300, 70_000] {
             for bin in [false, true] {
-                v.push(Case { units: vec![Unit14::ZeroCols { forms: vec![RowForm::Cols; k.min(3)], n_extra_write_row: k.saturating_sub(3) }], bin, direct_terminal: true });
+                v.push(Case { units: vec![Unit14::ZeroCols { forms: vec![RowForm::Cols; k.min(3)], n_extra_write_row: k.saturating_sub(3) }], bin, direct_terminal: true, error_end: None });
                 v.push(Case {
                     units: vec![Unit14::Count { rows: 7, id: 8 }, Unit14::ZeroCols { forms: vec![RowForm::WriteRow; k.min(2)], n_extra_write_row: k.saturating_sub(2) }, Unit14::ZeroCols { forms: vec![], n_extra_write_row: 1 }],
                     bin,
                     direct_terminal: false,
+                error_end: None,
                 });
             }
         }
@@ -147,7 +163,7 @@ impl Prop for C14 {
         for &n in chains {
             for bin in [false, true] {
                 let units: Vec<Unit14> = (0..n).map(|k| if k % 5 == 4 { Unit14::ZeroCols { forms: vec![RowForm::WriteRow; k % 3], n_extra_write_row: 0 } } else { Unit14::Count { rows: B[k % B.len()], id: (k as u64) * 7 } }).collect();
-                v.push(Case { units, bin, direct_terminal: n % 2 == 0 });
+                v.push(Case { units, bin, direct_terminal: n % 2 == 0, error_end: None });
             }
         }
         // "for all numbers of rows written to a zero-column resultset": the counts at which 16-,
@@ -157,7 +173,7 @@ impl Prop for C14 {
             Tier::Thorough => &[65_535, 65_536, (1 << 24) - 1, 1 << 24, (1 << 31) - 1, 1 << 31, (1 << 32) - 2, (1 << 32) - 1, (1 << 32) + 4, (1 << 33) + 1],
         };
         for (i, &n) in bulk.iter().enumerate() {
-            v.push(Case { units: vec![Unit14::ZeroColsBulk { n }], bin: i % 2 == 0, direct_terminal: i % 3 != 0 });
+            v.push(Case { units: vec![Unit14::ZeroColsBulk { n }], bin: i % 2 == 0, direct_terminal: i % 3 != 0, error_end: None });
         }
         v
     }
@@ -180,6 +196,9 @@ impl Prop for C14 {
             ex.class("chain");
         }
         ex.class(if case.bin { "binary" } else { "text" });
+        if case.error_end.is_some() {
+            ex.class("chain-ends-in-error()");
+        }
         let (conv, idx) = if case.bin {
             (
                 Conversation::new(
